@@ -345,6 +345,8 @@ def check_casts(prog, ctx):
             elif isinstance(node, ast.Call) and isinstance(node.func, ast.Name) and node.func.id in ("float", "complex", "int"):
                 if node.args and all(isinstance(a, ast.Constant) for a in node.args):
                     continue  # a literal such as float("inf"): no data is converted
+                if node.args and all("os.environ" in src(a) or "os.getenv" in src(a) for a in node.args):
+                    continue  # a configuration string from the environment: no block data is converted
                 kind = node.func.id
             elif isinstance(node, ast.Attribute) and node.attr in ("real", "imag") and isinstance(node.ctx, ast.Load):
                 kind = node.attr
